@@ -58,6 +58,30 @@ def _m1():
     return cfg
 
 
+def _m6():
+    """World B, the master's own watchdog: an instance that is placed but
+    not reported running for five minutes makes Master.check_integrity
+    freeze its server and unschedule it; servers that go down meanwhile,
+    instances with a retention longer than that interval."""
+    cfg = _m1()
+    cfg['servers'] = {k: v for k, v in cfg['servers'].items()
+                      if k in ('s0', 's1')}
+    cfg['templates'] = {
+        'r9': {'memory': '3M', 'cpu': '3%', 'disk': '3M', 'affinity': 'a',
+               'data_retention_timeout': '900s'},
+        'rn': {'memory': '2M', 'cpu': '2%', 'disk': '2M', 'affinity': 'c'},
+    }
+    cfg['max_apps'] = 2
+    cfg['allow_nocycle'] = False
+    cfg['events'] = mastercfg.ev(
+        ('app+', 'r9'), ('app+', 'rn'), ('run+', 0), ('chk',),
+        ('pres-', 's0'), ('pres+', 's0', 0),
+        ('state', 's0', 'up', -1),
+        ('tick', 310), ('tick', 1000), ('noop',), ('restart',),
+    )
+    return cfg
+
+
 def _m5():
     """World B, retention across master restarts and repeated freezes: small
     alphabet, deeper histories."""
@@ -83,10 +107,12 @@ def configs(ctx):
     if ctx.quick:
         return [('K1', _k1(), 4, 1),
                 ('M1', _m1(), 3, 0, _masterprop.MasterSpec),
-                ('M5', _m5(), 5, 1, _masterprop.MasterSpec)]
+                ('M5', _m5(), 5, 1, _masterprop.MasterSpec),
+                ('M6', _m6(), 5, 0, _masterprop.MasterSpec)]
     return [('K1', _k1(), 6, 1),
             ('M1', _m1(), 5, 1, _masterprop.MasterSpec),
-            ('M5', _m5(), 8, 1, _masterprop.MasterSpec)]
+            ('M5', _m5(), 8, 1, _masterprop.MasterSpec),
+            ('M6', _m6(), 8, 0, _masterprop.MasterSpec)]
 
 
 RULE = ('BFS over down/up/frozen transitions, clock advances around the '
